@@ -3,7 +3,7 @@
 From Coq Require Import String List NArith ZArith Bool.
 From J5V.lib Require Import Text Outcome.
 From J5V.model Require Import BclLexer BclParser BclFmt BclLsp.
-From J5V.proofs Require Import BclPosProofs BclLexerProofs BclParserProofs BclTextProofs BclFmtProofs BclFmtFullProofs BclLspProofs BclLspClampProofs.
+From J5V.proofs Require Import BclPosProofs BclLexerProofs BclParserProofs BclTextProofs BclFmtProofs BclFmtFullProofs BclLspProofs BclLspClampProofs BclDocBytesProofs.
 Import ListNotations.
 Local Open Scope Z_scope.
 
@@ -137,6 +137,15 @@ Theorem C19_client_apply_is_offset_apply : forall input tes, tes_wf (nlines inpu
   lsp_client_apply input tes = lsp_apply (split_on 10 input) 0 tes.
 Proof. exact lsp_client_apply_is_lsp_apply. Qed.
 Print Assumptions C19_client_apply_is_offset_apply.
+
+(* with C09 (Fmt is idempotent on bytes): formatting an already formatted document offers edits that leave it
+   as it is — the editor reaches a fixed point after one format.  (On the real code the second edit list was
+   empty on every generated input; that stronger fact is observed by the run, not proved.) *)
+Theorem C19_format_twice_is_stable : forall input out, fmt_bytes input = Ok out ->
+  exists es, fmt_diffs out = Ok es /\ edits_wf (nlines out) 0 es /\
+    strip_trailing_blank (apply_edits (split_on 10 out) 0 es) = strip_trailing_blank (split_on 10 out).
+Proof. exact fmt_diffs_of_output_stable. Qed.
+Print Assumptions C19_format_twice_is_stable.
 
 (* the shape of every edit FmtDiffs returns, for every input (accepted or not): no edit starts beyond
    the last line of the document, and every replacement text is empty or ends with a newline (so
